@@ -130,7 +130,6 @@ func indexOfRed(reds []simRed, r *simRed) int {
 	return -1
 }
 
-
 // tokenClass: the tokens a right-hand-side symbol stands for when it is a token itself or an operator-class
 // non-terminal — every production of it is a single token handed up unchanged (`cmp_op: LT | GT | …`, default action
 // or `$$ = $1`). Anything else yields nil.
